@@ -152,6 +152,28 @@ func runStress(e *env, c stCase) (res stResult) {
 			if alive[ci] {
 				start(ci)
 			}
+		case r < 80: // a start under an id that is in use on that connection: the old operation is replaced
+			if len(subs) == 0 {
+				continue
+			}
+			old := subs[rng.Intn(len(subs))]
+			if !alive[old.conn] {
+				continue
+			}
+			sb := &stSub{conn: old.conn, id: old.id}
+			act("restart c%d/%s", sb.conn, sb.id)
+			clients[sb.conn].start(sb.id, tdQuery, map[string]interface{}{}, "")
+			select {
+			case sb.up = <-upsvc.conns:
+				select {
+				case <-sb.up.started:
+				case <-time.After(2 * time.Second):
+				}
+				old.stopped = true
+				subs = append(subs, sb)
+			case <-time.After(2 * time.Second):
+				act("no upstream for restart")
+			}
 		case r < 76:
 			ci := rng.Intn(nconn)
 			if alive[ci] {
@@ -245,19 +267,29 @@ func runStress(e *env, c stCase) (res stResult) {
 		}
 		sort.Strings(ids)
 		for _, id := range ids {
-			var sb *stSub
+			// the operations that ran under this id on this connection, in start order (a start under an id in use
+			// replaces the operation): the frames are a prefix of the first one's events, then of the next one's ...
+			var chain []*stSub
 			for _, x := range subs {
 				if x.conn == ci && x.id == id {
-					sb = x
+					chain = append(chain, x)
 				}
 			}
-			if sb == nil {
+			if len(chain) == 0 {
 				res.BadFrames = append(res.BadFrames, fmt.Sprintf("c%d: data frames under id %s which was never started", ci, id))
 				continue
 			}
 			g := got[id]
-			if len(g) > len(sb.emitted) || strings.Join(g, ",") != strings.Join(sb.emitted[:len(g)], ",") {
-				res.BadFrames = append(res.BadFrames, fmt.Sprintf("c%d/%s: frames %v are not a prefix of the events %v", ci, id, g, sb.emitted))
+			i := 0
+			var all [][]string
+			for _, sb := range chain {
+				all = append(all, sb.emitted)
+				for k := 0; k < len(sb.emitted) && i < len(g) && g[i] == sb.emitted[k]; k++ {
+					i++
+				}
+			}
+			if i != len(g) {
+				res.BadFrames = append(res.BadFrames, fmt.Sprintf("c%d/%s: frames %v are not made of prefixes of the events %v", ci, id, g, all))
 			}
 		}
 	}
